@@ -183,3 +183,35 @@ def large_batch_rows(ck, train, what_prefix=""):
             ck.disagree("a row of a large batch is not what the same row gives in a small batch", {"layer": name, "batch": B, "row": probe[bad],
                         "train": train}, observed=float(diff.max()), signature={"what": what_prefix + "large-batch", "layer": name})
         ck.count("large_batch_rows_compared", len(probe))
+
+
+def dtype_variants(ck, train, what_prefix=""):
+    """A 0/1 batch stored in an integer / half / double dtype is the same batch: a layer either refuses it (exception) or returns what
+    it returns for the float32 batch."""
+    from torchlogix.layers import LogicConv2d, LogicConv3d, LogicDense
+    torch.manual_seed(ck.seed + 31)
+    layers = [("dense-raw", LogicDense(5, 7, device="cpu", weight_init="random"), (5,)),
+              ("dense-walsh", LogicDense(5, 7, device="cpu", parametrization="walsh", weight_init="random"), (5,)),
+              ("conv2d-raw", LogicConv2d(in_dim=(3, 4), device="cpu", channels=2, num_kernels=3, tree_depth=2, receptive_field_size=2, padding=1,
+                                         weight_init="random"), (2, 3, 4)),
+              ("conv2d-walsh", LogicConv2d(in_dim=(3, 4), device="cpu", channels=2, num_kernels=3, tree_depth=2, receptive_field_size=2, padding=1,
+                                           parametrization="walsh", weight_init="random"), (2, 3, 4)),
+              ("conv3d", LogicConv3d(in_dim=(2, 2, 3), device="cpu", channels=1, num_kernels=2, tree_depth=1, receptive_field_size=2, padding=1), (1, 2, 2, 3))]
+    for name, l, shape in layers:
+        l.train(train)
+        xb = torch.rand(6, *shape) > 0.5
+        with torch.no_grad():
+            ref = l(xb.float())
+        for dt in (torch.uint8, torch.int8, torch.int16, torch.int32, torch.int64, torch.float16, torch.bfloat16, torch.float64, torch.bool):
+            ck.case({"layer": name, "dtype": str(dt), "train": train}, nontrivial=True, kind="dtype-variant")
+            try:
+                with torch.no_grad():
+                    y = l(xb.to(dt))
+            except Exception:
+                ck.count("dtype_variant_rejected")
+                continue
+            ck.count("dtype_variant_checks")
+            if tuple(y.shape) != tuple(ref.shape) or float((y.double() - ref.double()).abs().max()) > 2e-2:
+                ck.disagree("the output on a 0/1 batch depends on the dtype the batch is stored in", {"layer": name, "dtype": str(dt), "train": train},
+                            expected=ref.reshape(-1)[:6].tolist(), observed=y.double().reshape(-1)[:6].tolist(),
+                            signature={"what": what_prefix + "dtype", "layer": name})
